@@ -1,7 +1,11 @@
 import IbModel.Util.Wire
+import IbModel.Driver.PipeX
+import IbModel.Driver.PipeW
+import IbModel.Driver.PipeFloat
 /-! Driver handlers for C02 (request kinds served for that property). -/
 namespace IB.D02
 
-def handlers : List (String × (List String → String)) := []
+def handlers : List (String × (List String → String)) := [("PIPEX", IB.PipeX.handlePipeX), ("PIPEW", IB.PipeW.handlePipeW),
+  ("PIPEFL", IB.PipeFloat.handlePipeFloat)]
 
 end IB.D02
